@@ -122,7 +122,10 @@ func (fw *faultWorld) serve(g int, b *memnet.Conn) {
 		fw.emit(map[string]any{"ev": "rx", "g": g})
 		cut := fw.plan.Pt != "write" && fw.applies(g)
 		pt, kind := fw.plan.Pt, fw.plan.Kind
-		if cut && pt == "read-first" {
+		if cut && pt == "read-first" && kind == "srvreq" {
+			fw.fired++ // not a failure: nothing is logged, the plan counts as carried out on this connection
+			fw.hitGen[g] = true
+		} else if cut && pt == "read-first" {
 			fw.fire(g)
 		}
 		fw.mu.Unlock()
@@ -136,6 +139,10 @@ func (fw *faultWorld) serve(g int, b *memnet.Conn) {
 		if cut && pt == "read-first" && kind == "junk" {
 			// a well-framed message the client cannot decode (a structure with a vendor tag), then the reply as if nothing had happened
 			b.Write(ttlv.MarshalTTLV(ttlv.Value{Tag: 0x540001, Value: ttlv.Struct{{Tag: 0x540002, Value: "unsolicited"}}}))
+		} else if cut && pt == "read-first" && kind == "srvreq" {
+			// a request of the server's own (well-formed, decodable), then the reply as if nothing had happened
+			q := kmip.NewRequestMessage(kmip.V1_4, &payloads.QueryRequestPayload{})
+			b.Write(ttlv.MarshalTTLV(&q))
 		} else if cut && pt == "read-first" {
 			bye()
 			return
